@@ -313,4 +313,62 @@ theorem parseStream_items (reg : Registry) (ver : Nat) (hint : Hint) (g : List N
   rw [hf, parseLoop_items reg ver hint g items (f + 1) {} tail hok hg, parseLoop_terminated reg ver hint f _ tail ht]
   rfl
 
+/-! ### GS1 escaping of alphanumeric data (7.4.8.2) is undone by the parser's FNC1 rule -/
+
+theorem massage_pp (r : List Nat) : fnc1Massage (37 :: 37 :: r) = 37 :: fnc1Massage r := by
+  simp [fnc1Massage]
+
+theorem massage_p_nil : fnc1Massage [37] = [0x1D] := by decide
+
+theorem massage_p (y : Nat) (r : List Nat) (hy : y ≠ 37) : fnc1Massage (37 :: y :: r) = 0x1D :: fnc1Massage (y :: r) := by
+  rw [fnc1Massage]
+  intro rest h
+  exact hy (by simpa using (List.cons.inj h).1)
+
+theorem massage_other (c : Nat) (r : List Nat) (hc : c ≠ 37) : fnc1Massage (c :: r) = c :: fnc1Massage r := by
+  rw [fnc1Massage]
+  · intros; exact hc ‹c = 37›
+  · intros; exact hc ‹c = 37›
+
+theorem fnc1Massage_gs1Escape : ∀ (xs : List Nat), gs1Clean xs = true → fnc1Massage (gs1Escape xs) = xs
+  | [], _ => rfl
+  | [x], _ => by
+    unfold gs1Escape
+    by_cases hg : x = 0x1D
+    · subst hg; decide
+    · by_cases hp : x = 37
+      · subst hp; decide
+      · simp only [hg, hp, if_false, gs1Escape, List.append_nil]
+        rw [massage_other x [] hp]; rfl
+  | x :: y :: rest, h => by
+    have hcl : gs1Clean (y :: rest) = true := by
+      unfold gs1Clean at h; simp only [Bool.and_eq_true] at h; exact h.2
+    have ih := fnc1Massage_gs1Escape (y :: rest) hcl
+    have hxy : ¬ (x = 0x1D ∧ (y = 0x1D ∨ y = 37)) := by
+      unfold gs1Clean at h
+      simp only [Bool.and_eq_true, Bool.not_eq_true', Bool.and_eq_false_iff, Bool.or_eq_false_iff, beq_eq_false_iff_ne,
+        ne_eq] at h
+      intro ⟨a, b⟩
+      rcases h.1 with h1 | ⟨h2, h3⟩
+      · exact h1 a
+      · rcases b with b | b
+        · exact h2 b
+        · exact h3 b
+    rw [gs1Escape]
+    by_cases hg : x = 0x1D
+    · subst hg
+      have hy1 : y ≠ 0x1D := fun e => hxy ⟨rfl, Or.inl e⟩
+      have hy2 : y ≠ 37 := fun e => hxy ⟨rfl, Or.inr e⟩
+      simp only [if_true, List.cons_append, List.nil_append]
+      -- the escape of (y :: rest) starts with y
+      have hstart : gs1Escape (y :: rest) = y :: gs1Escape rest := by
+        rw [gs1Escape]; simp [hy1, hy2]
+      rw [hstart, massage_p y _ hy2, ← hstart, ih]
+    · by_cases hp : x = 37
+      · subst hp
+        simp only [hg, if_false, if_true, List.cons_append, List.nil_append]
+        rw [massage_pp, ih]
+      · simp only [hg, hp, if_false, List.cons_append, List.nil_append]
+        rw [massage_other x _ hp, ih]
+
 end Gzx.QRMulti
